@@ -241,7 +241,7 @@ def run(ctx: Ctx) -> None:
         # (1) by interpretation: a signature whose only unusual part is this field must end in
         #     raise GuppyError(UnsupportedError(<that parameter>, …)) -- wherever the test lives (inline or in a helper)
         fields = {"posonlyargs": [], "kwonlyargs": [], "vararg": None, "kwarg": None, "defaults": [], "kw_defaults": [], "args": []}
-        param = _Tok("param", __ident__=1)
+        param = _Tok("param", annotation=_Tok("param_annotation"), arg="p", __ident__=1)
         fields[fld] = param if fields[fld] is None else [param]
         blamed: list = []
 
@@ -255,8 +255,16 @@ def run(ctx: Ctx) -> None:
         ev_.lenient = True
         verdict = None
         try:
-            r = ev_.run(top, {cs.node.args.args[0].arg: _Tok("func_def", args=_Tok("arguments", **fields), returns=_Tok("annotation"), name="f", body=[], decorator_list=[]),
-                              "UnsupportedError": h_unsupported})
+            # (the rest of the function is given what it needs to run to its end: a signature that is not rejected must be seen
+            #  to be ACCEPTED, not merely to leave the interpretable fragment)
+            more = {p_.arg: None for p_ in cs.node.args.args[2:]}
+            r = ev_.run(top, {cs.node.args.args[0].arg: _Tok("func_def", args=_Tok("arguments", **fields), returns=_Tok("annotation"), name="f", body=[], decorator_list=[],
+                                                             type_params=[]),
+                              cs.node.args.args[1].arg: _Tok("globals"), **more, "sys.version_info": (3, 12),
+                              "UnsupportedError": h_unsupported, "TypeParsingCtx": lambda n_, e_, en_: _Tok("parsing_ctx"),
+                              "parse_function_arg_annotation": lambda n_, e_, en_: _Tok("func_input"), "parse_self_arg": lambda n_, e_, en_: _Tok("func_input"),
+                              "type_from_ast": lambda n_, e_, en_: _Tok("output_ty"), "FunctionType": lambda n_, e_, en_: _Tok("function_type"),
+                              "MissingArgAnnotationError": lambda n_, e_, en_: _Tok("MissingArgAnnotationError")})
             verdict = r[0] == "raise" and r[1] == "GuppyError" and any(b is param or b == param for b in blamed)
             if not verdict and r[0] == "raise" and not blamed:
                 verdict = None  # some other diagnostic was raised first: not conclusive about this field
